@@ -188,6 +188,20 @@ CHECKS['C04'] = dict(
     technique="Coq proof (gate = statement, induction over signature types) + extracted-gate / database differential check over generated file trees",
     ref="5/C04")
 
+CHECKS['C05'] = dict(
+    text="Proof (partial): (1) comment attachment (CPPPreprocessor::get_comment_before as used by add_declaration): the block attached to a declaration ends on its line or the line "
+         "before; the block that ends on the line before a declaration IS attached whatever has been read ahead; a block is attached to two declarations only in the shape 'ends on the "
+         "line of the first, the second starts on the next line', hence uniqueness whenever no comment ends on a declaration's line; the unrestricted 'and to no other' is refuted by a "
+         "witness (recorded finding). (2) callable variants of a function with default arguments: each variant is a prefix of the declared parameters, one per arity from n-d to n, and "
+         "every omitted parameter has a default. Correspondence and specification: generated headers (bases with access/virtual, nesting, methods with named typed parameters and "
+         "defaulted tails, static/virtual/const, constructors, destructors, operators, data members, properties, sequences, enums with values, typedefs, documentation comments in every "
+         "position) are run through interrogate; every fact kept by the generator is looked up by name in the database (roles, ordered parameter names/types, optional/this flags, "
+         "return type, ownership, accessible bases and cast availability, getter/setter), and comment attachment and variant sets are compared with the extracted model.",
+    note=TB + "the builder's traversal that fills the records is not modelled (its output is compared with the generator's ground truth by testing); comment blocks are computed from the "
+         "text by a small scanner in the check (merging rule of skip_cpp_comment).",
+    technique="Coq proof (comment attachment, callable variants) + ground-truth differential check of the database over generated headers",
+    ref="5/C05")
+
 PENDING = {
 }
 
